@@ -138,6 +138,20 @@ def outcome_of(p: Path, view: View, in_loop: bool = False) -> Outcome:
                 o.segments.append(([], {}))
         elif e.kind == 'except':
             o.segments[-1][0].append('except %s' % e.target)
+    # two neighbours that touch different objects have no order: filing an object into a container of self
+    # (self.xs.append(p)) and storing a field of that object (p.f = v) commute - a field store on a parameter object is
+    # moved in front of such a container call, so that both orders read alike
+    import re as _re
+    mut = _re.compile(r'^call self\.[A-Za-z_]\w*(\[[^\]]*\])?\.(append|appendleft|add|insert|remove|discard)\(')
+    pw = _re.compile(r'^write @p\d+\.[A-Za-z_]\w* := ')
+    for events, _w in o.segments:
+        changed = True
+        while changed:
+            changed = False
+            for i in range(len(events) - 1):
+                if mut.match(events[i]) and pw.match(events[i + 1]) and '@self.' not in events[i + 1].split(' := ', 1)[1]:
+                    events[i], events[i + 1] = events[i + 1], events[i]
+                    changed = True
     ex = p.exit
     if ex in ('return', 'raise') and not (view.ignore_exit_value and ex == 'return'):
         ex = '%s %s' % (ex, p.exit_value)
